@@ -21,15 +21,16 @@ ASSUMPTIONS = ['values are finite and small (no overflow / NaN): every value is 
                'run-length evaluation agree bit for bit)']
 PARTIAL = ['npstructures RunLengthArray ufuncs / slicing / histogram / sum / RunLength2dArray pileup are external: modelled by their '
            'meaning on run lists (common refinement of the event lists, join of equal neighbours, clipping of runs) and tied by '
-           'correspondence only; C09_ufunc_pointwise_partial, C09_expression_pointwise_partial, C09_histogram_partial, '
-           'C09_sum_int_partial are about that abstract model, not about npstructures source',
-           'C09_sum_int_partial covers bool/int tracks; float sums are checked by correspondence only',
-           'get_boolean_mask (argsort + merge_intervals) and get_pileup are tied by correspondence only; proved here is '
-           'from_intervals on sorted, strictly separated intervals (C09_from_intervals_dense_partial); touching intervals fail in '
-           'the pinned code (C09_from_intervals_touching_refuted), per-interval values always fail (C09_from_intervals_array_refuted)',
-           'the genome-level assembly local records -> global coordinates -> per-chromosome dense arrays is proved for the array side '
-           '(C09_to_dict_concat) but the statement dense(global records)[offset_c:offset_c+size_c] = dense(records of c) is left to '
-           'the correspondence check (it is C10-T2)']
+           'correspondence only; C09_ufunc_pointwise_partial, C09_expression_pointwise_partial, C09_expression_complete_partial, '
+           'C09_histogram_partial, C09_sum_int_partial, C09_to_dict_entry are about that abstract model, not about npstructures source',
+           'np.sum on float tracks: checked by correspondence only (C09_sum_int_partial covers bool / int tracks); the dyadic '
+           'normalisation algebra needed for an exact-rational statement is not proved',
+           'get_mask end to end (C09_mask_end_to_end_partial) takes the correctness of argsort + merge_intervals as a hypothesis in '
+           'the words of C08_merge_relational / C08_mask_is_positive_coverage (proved there for C08\'s model of the same code); '
+           'get_pileup: only the coordinate statement C09_pileup_genome is proved, the flat pileup itself (npstructures '
+           'RunLength2dArray) is tied by correspondence',
+           'C09_from_intervals_dense_partial / _touching_refuted / _array_refuted are history (the pinned constructor); the '
+           'constructor in force is covered by C09_from_intervals_scalar_full / C09_from_intervals_array_full']
 PER_FILE = 24
 
 KINDS = 'bif'
@@ -312,6 +313,21 @@ def generate(tier, seed):
             leaf = bedgraph_leaf(rng, kind, list(pr), equal_neighbours=(i % 3 == 0))
             cases.append(mk(sizes, [leaf], ['leaf', 0] if i % 3 else rand_expr(rng, [leaf], 1), EDGES[i % len(EDGES)], names=i % 2))
             i += 1
+    # D. GenomicRunLengthArray.from_intervals: every sorted, non-overlapping interval set with <= 3 intervals (touching ones
+    #    included) on a flat axis of length n, scalar and per-interval values alternating, genome [n] or split in two
+    for n in range(1, (4 if quick else 5) + 1):
+        for rs in record_sets(n, 3):
+            kind = KINDS[i % 3]
+            arr = (i % 2 == 1) and len(rs) > 0
+            value = rand_value(rng, kind, nonzero=True)
+            default = V(0) if i % 3 else rand_value(rng, kind)
+            if kind == 'b':
+                value, default = (V(True), V(False)) if i % 4 else (V(False), V(True))
+            leaf = dict(tag=4 if arr else 3, kind=kind, recs=[[0, a, b, (rand_value(rng, kind) if arr else value)] for a, b in rs],
+                        value=value, default=default)
+            sizes = [n] if (n < 2 or i % 2 == 0) else [1 + i % (n - 1), n - 1 - i % (n - 1)]
+            cases.append(mk(sizes, [leaf], ['leaf', 0] if i % 3 else rand_expr(rng, [leaf], 1), EDGES[i % len(EDGES)], names=i % 2))
+            i += 1
     # C. random genomes, mixed leaves, expression trees to depth 3
     n_rand = 1000 if quick else 8000
     for j in range(n_rand):
@@ -329,7 +345,7 @@ def generate(tier, seed):
             elif r < 0.86:
                 leaves.append(interval_leaf(rng, 2, sizes))
             else:
-                leaves.append(direct_leaf(rng, sizes, touching=(rng.random() < 0.15)))
+                leaves.append(direct_leaf(rng, sizes, touching=(rng.random() < 0.4)))
         depth = rng.choice([0, 1, 1, 2, 2, 3, 3])
         cases.append(mk(sizes, leaves, rand_expr(rng, leaves, depth), rng.choice(EDGES), names=j % 2))
     return cases
@@ -582,28 +598,11 @@ def _touching_raises(case, o):
 
 
 def finding(case, o):
-    """id of the known finding that explains this failing case: every leaf that is wrong must match a known
-    signature (narrow: call site + input class + the exact symptom); anything else is a fresh violation."""
-    import numpy as np
-    hits = []
-    for l, lo in zip(case['leaves'], o['leaves']):
-        one = dict(case, leaves=[l])
-        oo = dict(leaves=[lo])
-        if _array_values_raises(one, oo):
-            hits.append('C09-from-intervals-array-values')
-        elif _touching_raises(one, oo):
-            hits.append('C09-from-intervals-touching')
-        elif not lo.get('ok'):
-            return None
-        else:
-            d = _dense_leaf(np, case, l)
-            if [v for ch in lo['dense'] for v in ch] != _arr_vals(d):
-                return None                      # wrong values are never a known finding
-            if _bool_bedgraph_promoted(one, oo):
-                hits.append('C09-bool-bedgraph-promoted')
-            elif lo.get('kind') != _kind_of(d.dtype) and l['recs']:
-                return None
-    return hits[0] if hits else None
+    """No failure mode of C09 is listed as an open finding any more: the three defects met in phase 1 (Boolean bedGraph
+    promoted to int64, from_intervals with array values, from_intervals with touching intervals) are repaired in /repo
+    (known_findings.json lists them under `fixed:`) and the model follows the repaired code.  Every failing case is
+    therefore a violation; nothing is swallowed."""
+    return None
 
 
 def search(tier, seed, disagreeing):
